@@ -25,6 +25,21 @@ PROPS = {
              "with a from-scratch two-pass evaluation of its window (bound: DESIGN 5.1). distinct = (function, type combo, "
              "len bucket, window, min_periods, path, value class/null pattern) with >=1 value-compared position",
     ),
+    "C02": dict(
+        bin="c02", features=["polars"],
+        quick=[("dbg", 1.0), ("rel", 1.0), ("miri", 0.7)],
+        thorough=[("dbg", 1.0), ("rel", 1.0), ("miri", 1.0), ("mirirel", 1.0), ("asan", 1.0)],
+        floors={"ok.rolling_apply": 100, "ok.rolling_apply_idx": 100, "ok.rolling2_apply": 100, "ok.rolling2_apply_idx": 100,
+                "ok.rolling_custom": 100, "ok.rolling2_custom": 50, "ok.rolling_custom_iter": 50, "okpath.To": 50, "okpath.Buf": 50,
+                "injected_panics_propagated": 50, "unspecified_removal_positions": 10, "spyout.buffers_verified": 50},
+        technique="runtime monitoring: online trace automaton over a recording callback (unique-id elements), Miri/ASan on the same executions",
+        rule="len 0..N x window 1..len+3 x {recording, stateful (order-sensitive checksum), panicking-at-k} callbacks x 7 driver entry "
+             "points and their *_to forms x {returned, caller buffer via entry point, direct *_to} x backends (Vec, VecDeque rotated, "
+             "Array1, strided/reversed ArrayView1, Arc<Vec>, Arc<Array1>, OptIter, SpyVec, SpyVecFast, polars 1-3 chunks) x output containers "
+             "(Vec, VecDeque, Array1, SpyOut exactly-once, polars where collectable). Input elements are unique ids 1000+i / 2000+i; "
+             "the automaton accepts a call iff it is for the next position with the prescribed removed/start/slice arguments; "
+             "output[i] must hold the result of call i. distinct = (driver, backend->output, len, window, path, callback kind)",
+    ),
     "C03": dict(
         bin="c03",
         quick=NATIVE_Q, thorough=NATIVE_T,
